@@ -269,8 +269,48 @@ def builtin_enum_cases():
     return out
 
 
+API_RECV = ["{}", "{a: 1, b: 2}", "Object.create({inh: 1})", "Object.create(null)", "{get g() { return 7 }, set g(v) { this.s = v }}",
+            "(function () { var o = {a: 1}; Object.defineProperty(o, 'h', {value: 2, enumerable: false, writable: true, configurable: true}); return o })()"]
+API_KEYS = ["'a'", "'g'", "'h'", "'inh'", "'0'", "'1'", "'-0'", "'01'", "'length'", "'zz'", "0", "1.5", "undefined", "null", "{toString: function () { return 'a' }}"]
+API_DESCS = ["{value: 1}", "{value: 1, writable: true, enumerable: true, configurable: true}", "{get: function () { return 'G' }}",
+             "{get: function () { return 'G' }, enumerable: true}", "{set: function (v) { this.sv = v }}", "{}", "{enumerable: false}",
+             "{value: undefined}", "5", "null", "undefined", "{get: 1}", "{value: 1, get: function () { }}"]
+API_OBS = ("[(function (d) { return d ? [d.enumerable, 'value' in d, typeof d.get, typeof d.set, d.value].join() : 'none' })(Object.getOwnPropertyDescriptor(o, K)), o[K], K in o, o.hasOwnProperty(K), Object.keys(o).sort().join(), "
+           "Object.values(o).length, o.length, typeof o.inh].join('|')")      # key order of integer-like keys, for-in over the chain, writable / configurable attributes: documented
+
+
+def object_api_cases():
+    out = []
+
+    def add(src):
+        src = "var r; try { r = (function () { %s })() } catch (e) { r = 'throw:' + e.name } r" % src
+        out.append(("A|" + src, {"src": src}))
+    for rv in API_RECV:
+        for k in API_KEYS:
+            add("var o = %s; var K = %s; return %s" % (rv, k, API_OBS))
+            add("var o = %s; var K = %s; var d = delete o[K]; return d + '|' + %s" % (rv, k, API_OBS))
+            add("var o = %s; var K = %s; o[K] = 'w'; return %s" % (rv, k, API_OBS))
+            for d in API_DESCS:
+                add("var o = %s; var K = %s; var res = Object.defineProperty(o, K, %s); return (res === o) + '|' + %s" % (rv, k, d, API_OBS))
+        for k in API_KEYS[:6]:
+            for d in API_DESCS[:6]:
+                add("var o = %s; var K = %s; var P = {}; P[K] = %s; P.second = {value: 2, enumerable: true}; Object.defineProperties(o, P); return o.second + '|' + %s" % (rv, k, d, API_OBS))
+                add("var K = %s; var P = {}; P[K] = %s; var o = Object.create(%s, P); return %s" % (k, d, rv, API_OBS))
+        for src2 in ("{a: 9, z: 8}", "[7]", "'xy'", "null", "undefined", "5", "{get a() { return 'ga' }}", "Object.create({inh2: 1})"):
+            add("var o = %s; var K = 'a'; var res = Object.assign(o, %s, {last: 1}); return (res === o) + '|' + %s" % (rv, src2, API_OBS))
+        for proto in ("null", "{p: 1}", "5", "undefined", "o"):
+            add("var o = %s; var K = 'p'; var res = Object.setPrototypeOf(o, %s); return (res === o) + '|' + (Object.getPrototypeOf(o) === null) + '|' + %s" % (rv, proto, API_OBS))
+    return out
+
+
 def core_spaces():
     return [
+        Space("c08_object_api", RUN, object_api_cases, oracle="table", batch=200, bound="%d x %d x %d" % (len(API_RECV), len(API_KEYS), len(API_DESCS)),
+              rule="%d receivers (plain, array, inheriting, null-prototype, accessor pair, hidden member) x %d keys (names, canonical and "
+                   "non-canonical index strings, numbers, undefined / null, an object) x {observe, delete, assign, defineProperty with %d "
+                   "descriptors, defineProperties, Object.create with descriptors, Object.assign from 8 sources, setPrototypeOf to 5 targets}: "
+                   "afterwards the descriptor, read, `in`, hasOwnProperty, the set of keys, the number of values and length are compared" % (
+                       len(API_RECV), len(API_KEYS), len(API_DESCS))),
         Space("c08_builtin_enum", RUN, builtin_enum_cases, oracle="table", batch=100, bound="%d x %d" % (len(BUILTIN_OBJECTS), len(BUILTIN_OBS)),
               rule="%d built-in constructors, namespaces, prototypes and instances of every kind x %d observations (keys, for-in, values, "
                    "entries, assign into a fresh and into an existing object, stringify alone and as an element): which members are "
